@@ -28,8 +28,34 @@ def gen_start(rng, N, wild=True):
     return rng.randint(-N - 3, N + 3)
 
 
-def gen_anchor(rng, nvec):
+SELFPOS = "$selfpos"  # the object's own `position` attribute (a view of its internal path array)
+# {"posof": j}: the `position` attribute of pool object j (again a live view, not a copy)
+
+
+def is_selfpos(x):
+    return isinstance(x, str) and x == SELFPOS
+
+
+def is_posof(x):
+    return isinstance(x, dict) and "posof" in x
+
+
+def materialise(op, getter):
+    """replace {"posof": j} tokens in d / anchor / v by getter(j) (a live ndarray view for the real
+    object, a plain list for the reference model)"""
+    out = None
+    for key in ("d", "anchor", "v"):
+        if is_posof(op.get(key)):
+            if out is None:
+                out = dict(op)
+            out[key] = getter(op[key]["posof"])
+    return out if out is not None else op
+
+
+def gen_anchor(rng, nvec, alias=False):
     r = rng.random()
+    if alias and r < 0.12:
+        return SELFPOS
     if r < 0.3:
         return None
     if r < 0.45:
@@ -39,14 +65,16 @@ def gen_anchor(rng, nvec):
     return gen.path(rng, rng.choice([1, 2, 3, max(1, nvec)]))
 
 
-def gen_move(rng, o, N, max_vec=4, wild=True):
+def gen_move(rng, o, N, max_vec=4, wild=True, alias=False):
     scalar = rng.random() < 0.5
     n = rng.randint(1, max_vec)
-    return {"op": "move", "o": o, "d": gen.vec3(rng) if scalar else gen.path(rng, n),
-            "start": gen_start(rng, N, wild)}
+    d = gen.vec3(rng) if scalar else gen.path(rng, n)
+    if alias and rng.random() < 0.08:
+        d = SELFPOS  # obj.move(obj.position): the input aliases the path that is being modified
+    return {"op": "move", "o": o, "d": d, "start": gen_start(rng, N, wild)}
 
 
-def gen_rotate(rng, o, N, forms=FORMS, max_vec=4, wild=True):
+def gen_rotate(rng, o, N, forms=FORMS, max_vec=4, wild=True, alias=False):
     form = rng.choice(forms)
     scalar = rng.random() < 0.5
     n = rng.randint(1, max_vec)
@@ -76,12 +104,14 @@ def gen_rotate(rng, o, N, forms=FORMS, max_vec=4, wild=True):
         if form == "quat":
             op["qscale"] = rng.choice([1.0, 1.0, 2.0, -1.0, 0.5])
     nvec = 1 if scalar else n
-    op["anchor"] = gen_anchor(rng, nvec)
+    op["anchor"] = gen_anchor(rng, nvec, alias)
     return op
 
 
-def gen_setter(rng, o, N, max_len=5):
+def gen_setter(rng, o, N, max_len=5, alias=False):
     L = rng.choice([N, N, 1, rng.randint(1, max_len)])
+    if alias and rng.random() < 0.06:
+        return {"op": "set_position", "o": o, "v": SELFPOS}
     if rng.random() < 0.5:
         v = gen.path(rng, L)
         if L == 1 and rng.random() < 0.5:
@@ -117,7 +147,7 @@ def gen_fit_op(rng, o, N, kinds=("move", "rotate", "setter"), forms=FORMS):
             op = gen_rotate(rng, o, N, forms, max_vec=min(4, N), wild=False)
             nvec = op_nvec(op)
             a = op.get("anchor")
-            na = len(a) if (a is not None and a != 0 and isinstance(a[0], list)) else 0
+            na = len(a) if (isinstance(a, list) and a and isinstance(a[0], list)) else 0
             n = max(nvec, na)
             if n > N:
                 continue
@@ -132,14 +162,14 @@ def gen_fit_op(rng, o, N, kinds=("move", "rotate", "setter"), forms=FORMS):
     return {"op": "set_orientation", "o": o, "r": r if N > 1 or rng.random() < 0.5 else r[0]}
 
 
-def gen_path_op(rng, o, N, kinds=("move", "rotate", "setter", "reset"), forms=FORMS, wild=True):
+def gen_path_op(rng, o, N, kinds=("move", "rotate", "setter", "reset"), forms=FORMS, wild=True, alias=False):
     k = rng.choice(kinds)
     if k == "move":
-        return gen_move(rng, o, N, wild=wild)
+        return gen_move(rng, o, N, wild=wild, alias=alias)
     if k == "rotate":
-        return gen_rotate(rng, o, N, forms, wild=wild)
+        return gen_rotate(rng, o, N, forms, wild=wild, alias=alias)
     if k == "setter":
-        return gen_setter(rng, o, N)
+        return gen_setter(rng, o, N, alias=alias)
     return {"op": "reset_path", "o": o}
 
 
@@ -147,6 +177,8 @@ def op_nvec(op):
     for k in ("d", "rv", "angle", "v", "r"):
         if k in op and op[k] is not None:
             v = op[k]
+            if is_selfpos(v) or is_posof(v):
+                return 0
             if op.get("form") == "euler":
                 return len(v) if isinstance(v, list) and isinstance(v[0], list) else 0
             if isinstance(v, list) and v and isinstance(v[0], list):
@@ -224,15 +256,23 @@ def exec_path_op(obj, op):
         with warnings.catch_warnings():
             warnings.simplefilter("ignore")
             if k == "move":
-                obj.move(_bad(op, "d", op["d"]), start=_bad(op, "start", op.get("start", "auto")))
+                d = op["d"]
+                if is_selfpos(d):
+                    d = obj.position
+                obj.move(_bad(op, "d", d), start=_bad(op, "start", op.get("start", "auto")))
             elif k == "rotate":
                 name, args, kw = call_args(op)
+                if is_selfpos(kw.get("anchor")):
+                    kw["anchor"] = obj.position
                 bad = op.get("bad")
                 if bad:
                     args, kw = _poison_rotate(name, list(args), dict(kw), bad)
                 getattr(obj, name)(*args, **kw)
             elif k == "set_position":
-                obj.position = _bad(op, "v", op["v"])
+                v = op["v"]
+                if is_selfpos(v):
+                    v = obj.position
+                obj.position = _bad(op, "v", v)
             elif k == "set_orientation":
                 b = op.get("bad")
                 obj.orientation = b["value"] if b and b["field"] == "r" else orientation_value(op["r"])
@@ -328,18 +368,27 @@ def reject_variants(op):
 def apply_to_model(m, op):
     """Apply a (valid) path op to a PathModel; returns ('pad', pb, pe) | ('set', N_new) | ('reset',)."""
     k = op["op"]
+
+    def selfpos():
+        P = np.array(m.P)
+        return (P[0] if len(P) == 1 else P).tolist()
+
     if k == "move":
-        pb, pe = m.move(op["d"], op.get("start", "auto"))
+        pb, pe = m.move(selfpos() if is_selfpos(op["d"]) else op["d"], op.get("start", "auto"))
         return ("pad", pb, pe)
     if k == "rotate":
         q = rotation_of(op).as_quat()
         anchor = op.get("anchor")
+        if is_selfpos(anchor):
+            anchor = selfpos()
+        elif isinstance(anchor, np.ndarray):
+            anchor = anchor.tolist()
         if isinstance(anchor, (int, float)) and anchor == 0:
             anchor = [0.0, 0.0, 0.0]
         pb, pe = m.rotate(q, anchor, op.get("start", "auto"))
         return ("pad", pb, pe)
     if k == "set_position":
-        m.set_position(op["v"])
+        m.set_position(selfpos() if is_selfpos(op["v"]) else op["v"])
         return ("set", len(m))
     if k == "set_orientation":
         r = op["r"]
